@@ -326,6 +326,7 @@ pub struct Writer<W: io::Write> {
     inner: csv::Writer<W>,
     delimiter: char,
     terminator: String,
+    value_delimiter: char,
 }
 
 impl Writer<fs::File> {
@@ -339,7 +340,7 @@ impl Writer<fs::File> {
 impl<W: io::Write> Writer<W> {
     /// Write to a given writer.
     pub fn new(writer: W, fileformat: GffType) -> Self {
-        let (delim, termi, _) = fileformat.separator();
+        let (delim, termi, vdelim) = fileformat.separator();
 
         Writer {
             inner: csv::WriterBuilder::new()
@@ -348,6 +349,7 @@ impl<W: io::Write> Writer<W> {
                 .from_writer(writer),
             delimiter: delim as char,
             terminator: String::from_utf8(vec![termi]).unwrap(),
+            value_delimiter: vdelim as char,
         }
     }
 
@@ -356,8 +358,23 @@ impl<W: io::Write> Writer<W> {
         let attributes = if !record.attributes.is_empty() {
             record
                 .attributes
-                .iter()
-                .map(|(a, b)| format!("{}{}{}", a, self.delimiter, b))
+                .iter_all()
+                .map(|(key, values)| {
+                    if self.value_delimiter == '\0' {
+                        // the format has no value separator (GFF2, GTF2): repeat the key
+                        values
+                            .iter()
+                            .map(|value| format!("{}{}{}", key, self.delimiter, value))
+                            .join(&self.terminator)
+                    } else {
+                        format!(
+                            "{}{}{}",
+                            key,
+                            self.delimiter,
+                            values.iter().join(&self.value_delimiter.to_string())
+                        )
+                    }
+                })
                 .join(&self.terminator)
         } else {
             "".to_owned()
